@@ -159,7 +159,7 @@ theorem cart_value_x (r φ x y lam : ℝ) (c : String → ℝ) (hr : r ≠ 0) (h
   simp only [aberration_surface_cartesian_gradients]; num_real
   rw [hc, hs]
   field_simp
-  ring
+  try ring          -- (whether `field_simp` already closes the goal depends on the operand order of the generated text)
 
 theorem cart_value_y (r φ x y lam : ℝ) (c : String → ℝ) (hr : r ≠ 0) (hr2 : r * r = x * x + y * y)
     (hc : Real.cos φ = x / r) (hs : Real.sin φ = y / r) :
@@ -169,6 +169,7 @@ theorem cart_value_y (r φ x y lam : ℝ) (c : String → ℝ) (hr : r ≠ 0) (h
   simp only [aberration_surface_cartesian_gradients]; num_real
   rw [hc, hs]
   field_simp
+  try ring
 
 /-- **Cartesian gradient = λ·∇_{x,y}χ** at every pixel other than the origin: with the polar coordinates the
 source computes (`k = sqrt(kx² + ky²)`, `phi = arctan2(ky, kx)`), the partial derivatives of
